@@ -92,8 +92,13 @@ def get_parser_by_name(docformat: str, obj: Optional['Documentable'] = None) -> 
         or it could be that the docformat name do not match any know L{pydoctor.epydoc.markup} submodules.
     """
     mod = import_module(f'pydoctor.epydoc.markup.{docformat}')
-    # We can safely ignore this mypy warning, since we can be sure the 'get_parser' function exist and is "correct".
-    return mod.get_parser(obj) # type:ignore[no-any-return]
+    try:
+        get_parser = mod.get_parser
+    except AttributeError as e:
+        # An helper module of this package (i.e. '_types'), not a parser.
+        raise ImportError(f'module {mod.__name__!r} is not a docstring parser') from e
+    # We can safely ignore this mypy warning, since we can be sure the 'get_parser' function is "correct".
+    return get_parser(obj) # type:ignore[no-any-return]
 
 def processtypes(parse:ParserFunction) -> ParserFunction:
     """
